@@ -451,10 +451,15 @@ pub fn run(op: &str, e: &Value, ctx: &mut Ctx) -> Result<Value, String> {
                 panic!("VerifyingKey::from_bytes and TryFrom disagree");
             }
             let sig = Signature::from_slice(&sb);
+            let vk_slice = vk2.ok();
             let (vk, sig) = match (vk, sig) {
                 (Ok(v), Ok(s)) => (v, s),
                 (v, s) => return Ok(json!({"key_ok": v.is_ok(), "sig_ok": s.is_ok()})),
             };
+            // every constructor keeps the SUPPLIED bytes (acceptance is defined on them, also for non-canonical encodings)
+            let v2 = vk_slice.ok_or("unreachable")?;
+            let key_bytes = vec![jbytes(&vk.to_bytes()), jbytes(vk.as_bytes()), jbytes(&v2.to_bytes()), jbytes(v2.as_bytes()), jbytes(vk.as_ref())];
+            let slice_key_same = v2 == vk && v2.verify(&m, &sig).is_ok() == vk.verify(&m, &sig).is_ok() && v2.verify_strict(&m, &sig).is_ok() == vk.verify_strict(&m, &sig).is_ok();
             let ph = || Sha512::new().chain_update(&m);
             let short = c.len() <= 255;
             let mut o = json!({"key_ok": true, "sig_ok": true,
@@ -464,6 +469,7 @@ pub fn run(op: &str, e: &Value, ctx: &mut Ctx) -> Result<Value, String> {
                 "raw": ed25519_dalek::hazmat::raw_verify::<Sha512>(&vk, &m, &sig).is_ok(),
                 "weak": vk.is_weak(),
                 "pk_edwards": jbytes(vk.to_edwards().compress().as_bytes()),
+                "key_bytes": key_bytes, "slice_key_same": slice_key_same,
             });
             if short {
                 o["ph"] = json!(vk.verify_prehashed(ph(), Some(&c), &sig).is_ok());
